@@ -12,6 +12,8 @@ run groups (fixed by tier, see plan()):
   A2  (thorough) every adjacent pair: [compile e, compile d, compile d]
   O   a design compiled with and without additional_reserved_names, alternating
   R   the SAME class object compiled again after a rejected attempt (module-level flag guards the error)
+  V   no rejection at all: every ORDERED PAIR of valid designs adjacent once (a seeded Euler circuit of the complete digraph,
+      cut into histories of 64 compilations) -- what a SUCCESSFUL compilation leaves behind must not reach the next one
   B   sampled longer histories (12..40 ops: valid, planted, context-invalid, gc)
   C   cross-hash-seed goldens of every valid (thorough: also every planted) design, and two forks of one interpreter
 (fork() does not scale across processes in this VM, so histories are long rather than many.)
@@ -78,8 +80,37 @@ def prepare(seed, tier):
 def sizes(tier):
     v, p = tables()
     if tier == "quick":
-        return {"A": len(p), "A2": 0, "O": len(v), "R": len(pool.RETRY) * 2, "B": 120, "C": len(v)}
-    return {"A": len(p) * 8, "A2": len(p) * (len(v)), "O": len(v) * 8, "R": len(pool.RETRY) * 16, "B": 6000, "C": len(v) + len(p)}
+        return {"A": len(p), "A2": 0, "O": len(v), "R": len(pool.RETRY) * 2, "V": n_chunks(len(v)), "B": 120, "C": len(v)}
+    return {"A": len(p) * 8, "A2": len(p) * (len(v)), "O": len(v) * 8, "R": len(pool.RETRY) * 16, "V": n_chunks(len(v)) * 32, "B": 6000, "C": len(v) + len(p)}
+
+
+V_CHUNK = 64
+
+
+def n_chunks(n):
+    return -(-(n * n) // V_CHUNK)
+
+
+_circuits = {}
+
+
+def euler_circuit(seed, rep, keys):
+    """a seeded Euler circuit of the complete digraph (self-loops included) over `keys`: every ordered pair adjacent exactly once"""
+    ck = (seed, rep, len(keys))
+    if ck not in _circuits:
+        rs = rng.Stream(seed, "C11", "V", rep)
+        out = {k: rs.permute(list(keys)) for k in keys}
+        stack, circ = [keys[rs.below(len(keys))]], []
+        while stack:  # Hierholzer
+            u = stack[-1]
+            if out[u]:
+                stack.append(out[u].pop())
+            else:
+                circ.append(stack.pop())
+        circ.reverse()
+        assert len(circ) == len(keys) ** 2 + 1
+        _circuits[ck] = circ
+    return _circuits[ck]
 
 
 def plan(tier):
@@ -243,6 +274,12 @@ def run_one(seed, idx, tier):
             if rs.below(2):
                 ops += [["setflag", r, True], ["compile_mod", r], ["setflag", r, False], ["compile_mod", r]]
                 names += ["set flag", r + "(flag set)", "clear flag", r]
+    elif grp == "V":
+        rep, ch = divmod(j, n_chunks(len(vk)))
+        circ = euler_circuit(seed, rep, vk)
+        names = circ[ch * V_CHUNK : (ch + 1) * V_CHUNK + 1]  # (chunks overlap in one design: no pair is lost at a cut)
+        hs = hss[(rep + ch) % nh]
+        ops = [["compile", v[k]] for k in names]
     elif grp == "B":
         rs = rng.Stream(seed, "C11", "history", j)
         hs = hss[rs.below(nh)]
@@ -366,6 +403,7 @@ def finding_key(r):
 
 
 ASSUMPTIONS = [
+    "a successful compilation is part of the history too (group V: all ordered pairs of valid designs); "
     "fault model = rejected compilations caused by real user errors planted at marked sites of valid designs (every pipeline stage); "
     "exceptions no design can provoke (KeyboardInterrupt, MemoryError) are out of scope",
     "design pool is hand-written (see vf/gen/pool.py); histories are sequences over pool designs and their planted variants",
@@ -375,7 +413,7 @@ ASSUMPTIONS = [
 
 def evidence(results, tier):
     v, p = tables()
-    hist = [r for r in results if r.get("group") in ("A", "A2", "B", "O", "R")]
+    hist = [r for r in results if r.get("group") in ("A", "A2", "B", "O", "R", "V")]
     nontriv = {r["shape"] for r in hist if r.get("nrej", 0) >= 1 and r.get("nacc", 0) >= 1}
     dirty = {}
     sites = {}
@@ -400,10 +438,11 @@ def evidence(results, tier):
         "distinct_nontrivial": len(nontriv),
         "rule": "one evaluation = one history of compilations executed in a fork of a pristine interpreter under a chosen PYTHONHASHSEED, "
         "each compile compared with the same source compiled alone in a fresh fork (group A: every (valid design, planted rejection) pair as "
-        "[reject, compile, compile]; group B: sampled histories of 4..12 operations; group C: goldens of each valid design across hash seeds and across two forks); "
+        "[reject, compile, compile]; group V: every ordered pair of valid designs adjacent once, no rejection; group B: sampled histories of 4..12 operations; group C: goldens of each valid design across hash seeds and across two forks); "
         "distinct = distinct operation-name sequences; non-trivial = at least one rejected and one accepted compilation in the history",
         "samples": [sample] if sample else [],
         "valid_designs": len(v),
+        "ordered_pairs_of_valid_designs_adjacent_without_a_rejection(group V)": sum(len(r["names"]) - 1 for r in hist if r.get("group") == "V"),
         "planted_rejections": len(p),
         "histories": len(hist),
         "compilations": sum(r.get("nrej", 0) + r.get("nacc", 0) for r in hist),
